@@ -32,7 +32,8 @@ ASSUMPTIONS = ["virtual time: timers fire when the driver reaches their "
                "task must have run by quiescence of a bounded program"]
 REQUIRED = ["programs", "steps_checked", "timed_resumes", "select_timeouts",
             "select_ready", "wakes", "subtask_returns", "subtask_raises",
-            "tasks_raised", "timer_fires", "timers_cancelled", "quiescent_checks"]
+            "tasks_raised", "timer_fires", "timers_cancelled", "quiescent_checks",
+            "programs_natural_drive", "natural_select_timeouts"]
 TIMEOUT = {"quick": 1200, "thorough": 9000}
 
 _st = {}
@@ -60,7 +61,7 @@ def get_world (epoll):
   return w
 
 
-class Prog (object):
+class _Horizon (BaseException):
   pass
 
 
@@ -143,7 +144,7 @@ def run_program (case, rep):
           errs.append(("task resumed before its requested time",
                        "task %s step %d (%s %.2f): resumed at +%.3f" %
                        (tid, k, kind, d, clock.now - t0)))
-        if clock.now > t0 + d + 1e-6 and d > 0:
+        if clock.now > t0 + d + 1e-6 and d > 0 and case.get("drive") != "natural":
           errs.append(("timed wait resumed late in virtual time",
                        "task %s step %d: %.3f late" % (tid, k, clock.now - t0 - d)))
       elif kind == "sel_to":
@@ -278,10 +279,56 @@ def run_program (case, rep):
         make_timer(spec); nt[0] = True
       # drive: external events in time order, then to the horizon
       steps0 = w.steps
-      w.run()
-      guard = 0
       end = t_start + HORIZON
-      while clock.now < end and guard < 3000:
+      natural = case.get("drive") == "natural"
+      if natural:
+        # The hub computes its own select() timeout from the registered
+        # deadlines; the select stand-in lets exactly that much virtual time
+        # pass (stopping early only when an external event makes something
+        # ready, as a real select would).  This is what judges the hub's
+        # timeout arithmetic; the stepped driver below never lets a select
+        # time out and reads the deadlines itself.
+        vs = w.hub._select_func
+        def des_select (rl, wl, xl, timeout=None):
+          rl = list(rl); wl = list(wl); xl = list(xl)
+          remaining = timeout if timeout is not None else 1e9
+          while True:
+            res = vs(rl, wl, xl, 0)
+            if res[0] or res[1] or res[2]: return res
+            externals.sort(key=lambda e: e[0])
+            te = externals[0][0] if externals else None
+            t_end = clock.now + remaining
+            if te is not None and te <= t_end:
+              if te > clock.now:
+                remaining -= te - clock.now
+                clock.now = te
+              tm, fn = externals.pop(0)
+              fn()
+              continue
+            if t_end > end:
+              # the program's horizon comes first: the select is abandoned
+              # (a real one would simply still be waiting)
+              clock.now = end
+              raise _Horizon()
+            clock.now = t_end
+            rep.count("natural_select_timeouts")
+            return [], [], []
+        w.hub._select_func = des_select
+        try:
+          try:
+            while clock.now < end and w.steps - steps0 <= 60000:
+              if sched._ready: sched.cycle()
+              else: w.hub.idle()
+              w.steps += 1
+          except _Horizon:
+            pass
+        finally:
+          w.hub._select_func = vs
+        w.run()
+      else:
+        w.run()
+      guard = 0
+      while not natural and clock.now < end and guard < 3000:
         guard += 1
         if w.steps - steps0 > 60000: break
         externals.sort(key=lambda e: e[0])
@@ -379,7 +426,7 @@ def do_case (case, rep):
     rep.violation("C06 harness-visible exception",
                   traceback.format_exc()[-900:], case)
     nt = True
-  rep.case(repr((case["tasks"], case.get("timers"))).encode(),
+  rep.case(repr((case["tasks"], case.get("timers"), case.get("drive"))).encode(),
            nontrivial=bool(nt))
 
 
@@ -468,6 +515,9 @@ def run (spec, rep):
     case["epoll"] = spec["epoll"]
     do_case(case, rep)
     if first: rep.sample(case); first = False
+    c2 = dict(case); c2["drive"] = "natural"
+    do_case(c2, rep)
+    rep.count("programs_natural_drive")
 
 
 def replay (witness, rep):
